@@ -48,6 +48,18 @@ def run(v, tier, seed, replay=None):
                 v.violation('C06:write:%s' % ('hang' if x.startswith('HANG') else 'fail'),
                             'write session with container size %d (internal buffer set up for 0x20000), %d objects of %d payload bytes: %s [%s]' % (w['cs'], w['nobj'], w['tlen'], x[:80], name),
                             {'scenario': w['line'][:200], 'implementation': x[:200]})
+    # the container size changed in the middle of a write session (shrunk while worker 2 waits for a chunk of the old size; grown)
+    rz = [(4096, 512, 1000, 2000), (4096, 100, 1000, 100), (4096, 8192, 1000, 2000), (64, 300000, 500, 9000), (0x20000, 64, 5000, 5000), (512, 4096, 10, 2000)]
+    for nm, bl, sd in (('plain', plain, 0), ('sched', sched, seed + 21)):
+        ro = sessrun.run_impl(bl, ['FC %d %d %d %d' % t for t in rz], sd)
+        for t, o in zip(rz, ro):
+            if o == 'SKIPPED':
+                continue
+            if o != 'FC ok n=%d inorder=1' % (t[2] + t[3]):
+                nbad += 1
+                v.violation('C06:resize:%s' % ('hang' if o.startswith('HANG') else 'other'),
+                            'write session whose container size is changed from %d to %d after %d of %d objects: %s [%s]' % (t[0], t[1], t[2], t[2] + t[3], o[:80], nm),
+                            {'scenario': 'FC %d %d %d %d' % t, 'implementation': o[:200]})
     # one read request larger than the buffer (deadlocked before the repair of UncompressedFile::read; C06_read_request_above_buffer_finishes)
     big, _ = sessrun.big_read_file(mexe, 3, 0x20000, rng, text=200000)
     big2, _ = sessrun.big_read_file(mexe, 2, 0x8000, rng, text=300000)
@@ -68,8 +80,8 @@ def run(v, tier, seed, replay=None):
     v.coverage.update({
         'obligations': info['obligations'], 'discharged': info['discharged'], 'checker_cmd': info['checker_cmd'],
         'trusted_base': TRUSTED + info['print_assumptions'], 'failed_obligations': info['failed'],
-        'evaluations': len(cases) * len(runs) + 2 * len(wl) + 3, 'distinct_nontrivial': len(cases) + len(wl) + 2,
-        'rule': 'read sessions on assembled files large enough to fill the pipeline (9000 objects in 4 KiB containers, 6000 in 128 KiB containers, 30 in 64-byte containers): read k in {0,3,11,all} objects, pause so that both workers block on full buffers, then close() / destroy / close twice then destroy; write sessions with container sizes below, at and above the construction-time buffer and objects larger than both; read sessions over files whose objects (200000 / 300000 bytes) need a single read request larger than the internal buffer; each on the plain build and on builds with seeded yield/sleep injection at every lock/unlock/wait. A watchdog expiry is a hang. Non-trivial = distinct scenario.',
+        'evaluations': len(cases) * len(runs) + 2 * len(wl) + 3 + 2 * len(rz), 'distinct_nontrivial': len(cases) + len(wl) + 2,
+        'rule': 'read sessions on assembled files large enough to fill the pipeline (9000 objects in 4 KiB containers, 6000 in 128 KiB containers, 30 in 64-byte containers): read k in {0,3,11,all} objects, pause so that both workers block on full buffers, then close() / destroy / close twice then destroy; write sessions with container sizes below, at and above the construction-time buffer and objects larger than both; write sessions whose container size is changed mid-way (shrunk and grown); read sessions over files whose objects (200000 / 300000 bytes) need a single read request larger than the internal buffer; each on the plain build and on builds with seeded yield/sleep injection at every lock/unlock/wait. A watchdog expiry is a hang. Non-trivial = distinct scenario.',
         'builds': [n for n, _ in runs], 'hangs_or_crashes': nbad,
         'samples': [c['line'][:60] + '...' for c in cases[:3]] + [w['line'][:80] + '...' for w in wl[:2]],
         'theorems': ['C06_write_stuck_free', 'C06_write_terminates', 'C06_read_stuck_free', 'C06_read_request_above_buffer_finishes', 'C06_code_shape'],
